@@ -36,7 +36,8 @@ pub fn layouts() -> Vec<Layout> {
             }
         }
     }
-    for q in [Quote::Single, Quote::Double] {
+    // (block scalars `|-` / `>-` too: a string stays a string whatever its text looks like)
+    for q in [Quote::Single, Quote::Double, Quote::Literal, Quote::Folded] {
         let mut b = Layout::new("block");
         b.quote = q;
         out.push(b);
@@ -299,6 +300,22 @@ pub fn programs(thorough: bool) -> Vec<(String, Option<Query>)> {
         let c = Clause::Block { some: false, q: q.clone(), not_empty: false, lets: vec![], body: vec![vec![un(vec![key("zz")], UnOp::Exists, false)]] };
         out.push((print_file(&file1(rule("r", vec![vec![c]]))), None));
     }
+    // key interpolation `a.%k..`: the point reached is the struct that lacks the key (the stuck points are those of the query
+    // with the key written out)
+    for (kname, tail) in [("zz", vec![]), ("zz", vec![key("b")]), ("b", vec![key("zz")]), ("a", vec![key("zz")]), ("a", vec![Part::All, key("zz")])] {
+        for head in [vec![key("a")], vec![key("a"), Part::All], vec![Part::This]] {
+            let mut inl = head.clone();
+            inl.push(key(kname));
+            inl.extend(tail.clone());
+            let mut qv = head.clone();
+            qv.push(Part::Var("k".into()));
+            qv.extend(tail.clone());
+            for c in [un(qv.clone(), UnOp::Exists, false), bin(qv.clone(), BinOp::Eq, false, i(1))] {
+                let f = File { lets: vec![Let { name: "k".into(), val: Arg::Lit(s(kname)) }], rules: vec![rule("r", vec![vec![c]])], default: vec![] };
+                out.push((print_file(&f), Some(inl.clone())));
+            }
+        }
+    }
     // the document root itself
     for c in [bin(vec![Part::This], BinOp::Eq, false, i(1)), un(vec![Part::This], UnOp::IsList, false), un(vec![Part::This], UnOp::IsStruct, false), bin(vec![Part::This, Part::All], BinOp::Eq, false, i(1)), bin(vec![Part::This], BinOp::In, false, l(vec![i(5), s("zz")]))] {
         out.push((print_file(&file1(rule("r", vec![vec![c]]))), None));
@@ -325,6 +342,9 @@ pub fn run(tier: &str) -> i32 {
     docs.push(m(vec![("a", m(vec![("", m(vec![("a", i(2)), ("b", s("x"))])), ("a", m(vec![("a", i(1)), ("b", s("y"))]))])), ("b", i(1))]));
     docs.push(m(vec![("a", m(vec![("a/b", l(vec![i(3), i(1)])), ("0", l(vec![i(2)])), ("a b", l(vec![])), ("a.b", i(1))])), ("b", i(3))]));
     docs.push(m(vec![("a", l(vec![m(vec![("", i(2)), ("a", i(1))]), m(vec![("", l(vec![i(1), i(2)]))])])), ("", i(1)), ("b", i(2))]));
+    // strings whose text reads as a number, a boolean or null
+    docs.push(m(vec![("a", l(vec![s("12"), s("true"), s("3.5"), s("null"), s("1e3")])), ("b", s("12"))]));
+    docs.push(m(vec![("a", m(vec![("a", s("7")), ("b", s("false"))])), ("b", s("~"))]));
     // documents whose root is a scalar or a list (the position of the root value itself)
     docs.push(i(7));
     docs.push(s("word"));
